@@ -9,6 +9,7 @@ package c13
 import (
 	"encoding/json"
 	"fmt"
+	"go/token"
 	"go/types"
 	"os"
 	"path/filepath"
@@ -298,6 +299,22 @@ func checkUniverse(c *core.Ctx, corpus string, u *gengotypes.Universe, pkgPaths 
 						got = lp.Pkg().Path()
 					}
 					c.Fail("", cs, "%s: LocateInPackage(pos in %s) = %s", path, fn, got)
+				}
+			}
+			// positions anywhere in the files: the first and the last byte of every file, every package-scope object
+			for _, f := range p.Files() {
+				for _, pos := range []token.Pos{f.FileStart, f.FileEnd - 1, f.End() - 1} {
+					if lp := u.LocateInPackage(pos); lp != p {
+						c.Fail("", cs, "%s: LocateInPackage(%s) is not the package", path, p.FileSet().Position(pos))
+					}
+				}
+			}
+			for _, n := range scope.Names() {
+				if o := scope.Lookup(n); o.Pos().IsValid() {
+					c.Trans(1)
+					if lp := u.LocateInPackage(o.Pos()); lp != p {
+						c.Fail("", cs, "%s: LocateInPackage(position of %s) is not the package", path, n)
+					}
 				}
 			}
 			if len(dirs) == 1 {
